@@ -358,6 +358,12 @@ class InterpolatableFunction(ABC):
                 resShape = x.shape
             res = np.empty(resShape)
 
+            ## Points inside the table (reached by finite-difference stencils around
+            ## points just outside of it) take the interpolated value
+            xInside = ~(xLower | xUpper)
+            if np.any(xInside):
+                res[xInside, ...] = self.evaluateInterpolation(x[xInside])
+
             ## Lower range
             if np.any(xLower):
                 match self.extrapolationTypeLower:
